@@ -171,6 +171,10 @@ func (c *CollectionPage) Count() uint {
 // Append adds an element to a CollectionPage
 func (c *CollectionPage) Append(it ...Item) error {
 	for _, ob := range it {
+		if IsNil(ob) {
+			// nothing to append
+			continue
+		}
 		if c.Items.Contains(ob) {
 			continue
 		}
